@@ -571,7 +571,7 @@ func readerField(c *Ctx, rule string, m *bits.Machine, fname, field string, patt
 	}
 	for i, u := range used {
 		if !u {
-			c.R.Add(rule, fname, fmt.Sprintf("field %s: form %q is decoded somewhere", field, patterns[i]), p.Position(m.Fn.Pos()), false, "no store matches this form")
+			addOrUndecided(c, rule, fname, fmt.Sprintf("field %s: form %q is decoded somewhere", field, patterns[i]), p.Position(m.Fn.Pos()), false, "no store matches this form", m.Fn)
 		}
 	}
 	return n
